@@ -597,26 +597,29 @@ func (e StdEng) Outer(a, b, prealloc Tensor) (err error) {
 	var lda int
 	switch {
 	case pdo.IsColMajor():
-		aShape := a.Shape().Clone()
-		bShape := b.Shape().Clone()
-		if err = a.Reshape(aShape[0], 1); err != nil {
+		// Reshape shallow clones, never the operands themselves: a and b belong to the caller,
+		// may be one and the same tensor, and must be left untouched also when an error occurs.
+		var av, bv *Dense
+		if av, err = assertDense(a); err != nil {
 			return err
 		}
-		if err = b.Reshape(1, bShape[0]); err != nil {
+		if bv, err = assertDense(b); err != nil {
 			return err
 		}
-
-		if err = e.MatMul(a, b, prealloc); err != nil {
+		av, bv = av.ShallowClone(), bv.ShallowClone()
+		// a clone shares the saved pre-transposition access pattern with its source; vectors need no
+		// data movement, so forget it rather than let Reshape recycle the shared slices.
+		av.old.zeroOnly()
+		av.transposeWith = nil
+		bv.old.zeroOnly()
+		bv.transposeWith = nil
+		if err = av.Reshape(av.Shape()[0], 1); err != nil {
 			return err
 		}
-
-		if err = b.Reshape(bShape...); err != nil {
-			return
+		if err = bv.Reshape(1, bv.Shape()[0]); err != nil {
+			return err
 		}
-		if err = a.Reshape(aShape...); err != nil {
-			return
-		}
-		return nil
+		return e.MatMul(av, bv, prealloc)
 
 	case pdo.IsRowMajor():
 		lda = pd.Shape()[1]
